@@ -81,7 +81,7 @@ func (pl *PlanLeader) Serve(partition int, fn planner.QueryClusterFN) {
 // Close closes the leader.
 func (pl *PlanLeader) Close() {
 	atomic.StoreInt32(&pl.closed, 1)
-	pl.Z.Close()
+	closeBounded(pl.Z, 10*time.Second)
 }
 
 // Query runs a query on the leader.
